@@ -16,6 +16,7 @@ func init() {
 		Run: func(m *Model, s *Sink) {
 			m.RunTruth(s, "R-TRUTH")
 			m.RunTruthUsers(s, "R-TRUTH")
+			m.RunEvalErr(s, "R-EVALERR") // a failing condition / body / sub-expression fails the render instead of being treated as a value
 			m.RunBranch(s, "R-BRANCH")
 			m.RunPrefixKW(s, "R-PREFIXKW")
 			m.RunEmit(s, "R-EMIT")
